@@ -1,4 +1,7 @@
 import BSModel.Proofs.Formatter
+import BSModel.Proofs.FormatterBuild
+import BSModel.Proofs.FormatterPopulate
+import BSModel.Gen.FormatterHtml5
 import BSModel.Gen.Formatter
 /-! # C15 — formatter options take effect and output is deterministic
 
@@ -328,6 +331,121 @@ example : render (plain (mkHTMLFormatter { entity_substitution := .custom 0 })) 
 example : [StrKind.comment, .cdata, .doctype, .declaration, .pi, .xmlpi, .preformatted].all (·.verbatim) = true
     ∧ StrKind.text.verbatim = false := by decide
 
+/-- The same for pretty-printing (`prettify`, `decode(indent_level=…)`): the item list — pieces, their stripping, the
+    indentation positions — under `f` is the item list of the non-substituting formatter on the mapped tree. -/
+theorem custom_subst_scope_pretty (c : Cfg) (i : Subst → PStr → PStr) (h : c.entity_substitution ≠ .none) (lv : Nat)
+    (par : Option PStr) (n : Node) :
+    pretty c i lv par n
+      = pretty (plain c) i lv par
+          (mapScope c.cdata_containing_tags c.empty_attributes_are_booleans (i c.entity_substitution) par n) := by
+  unfold pretty
+  rw [prettyItems_mapScope c i h lv false par n]; rfl
+
+example : pretty (mkHTMLFormatter { entity_substitution := .custom 0 }) bracket 0 none sample
+    = ofS "<p a=\"[]\" b=\"[&]\">\n <br/>\n [x&y]\n <script>\n  1&2\n </script>\n <!--&-->\n</p>\n" := by decide +kernel
+
+/-! ## however the formatter is supplied -/
+
+/-- A `Formatter` object is used as it is by every output method. -/
+theorem supplied_object (regH regX : List (Option PStr × Cfg)) (isXml : Bool) (c : Cfg) (i : Subst → PStr → PStr) (m : Mode)
+    (par : Option PStr) (n : Node) : entry regH regX isXml (.obj c) i m par n = renderMode c i m par n := rfl
+
+/-- A bare function: every output method renders as with the tree flavour's class constructed on that function alone, so
+    every other option has its default (`/`, the flavour's cdata-containing tags, no boolean attributes, one space). -/
+theorem supplied_function (isXml : Bool) (s : Subst) (i : Subst → PStr → PStr) (m : Mode) (par : Option PStr) (n : Node) :
+    entry BS.Gen.fmtHtmlRegistry BS.Gen.fmtXmlRegistry isXml (.fn s) i m par n
+      = renderMode (if isXml then mkXMLFormatter { entity_substitution := s } else mkHTMLFormatter { entity_substitution := s })
+          i m par n := rfl
+
+theorem lookup_html (nm : Option PStr) (c : Cfg) (h : lookup BS.Gen.fmtHtmlRegistry nm = .ok c) (i : Subst → PStr → PStr) (m : Mode)
+    (par : Option PStr) (n : Node) :
+    entry BS.Gen.fmtHtmlRegistry BS.Gen.fmtXmlRegistry false (.name nm) i m par n = renderMode c i m par n := by
+  simp [entry, formatterForName, h]
+
+theorem lookup_xml (nm : Option PStr) (c : Cfg) (h : lookup BS.Gen.fmtXmlRegistry nm = .ok c) (i : Subst → PStr → PStr) (m : Mode)
+    (par : Option PStr) (n : Node) :
+    entry BS.Gen.fmtHtmlRegistry BS.Gen.fmtXmlRegistry true (.name nm) i m par n = renderMode c i m par n := by
+  simp [entry, formatterForName, h]
+
+/-- A registered name: every output method, on every tree, renders as with the documented formatter of the tree's flavour
+    (live registries); any other name raises `KeyError` from every output method. -/
+theorem supplied_name (i : Subst → PStr → PStr) (m : Mode) (par : Option PStr) (n : Node) :
+    entry BS.Gen.fmtHtmlRegistry BS.Gen.fmtXmlRegistry false (.name (some N_html)) i m par n
+      = renderMode (mkHTMLFormatter { entity_substitution := .html }) i m par n ∧
+    entry BS.Gen.fmtHtmlRegistry BS.Gen.fmtXmlRegistry false (.name (some N_html5)) i m par n
+      = renderMode (mkHTMLFormatter { entity_substitution := .html5, void_element_close_prefix := some [],
+                                      empty_attributes_are_booleans := true }) i m par n ∧
+    entry BS.Gen.fmtHtmlRegistry BS.Gen.fmtXmlRegistry false (.name (some N_html5_412)) i m par n
+      = renderMode (mkHTMLFormatter { entity_substitution := .html, void_element_close_prefix := some [],
+                                      empty_attributes_are_booleans := true }) i m par n ∧
+    entry BS.Gen.fmtHtmlRegistry BS.Gen.fmtXmlRegistry false (.name (some N_minimal)) i m par n
+      = renderMode (mkHTMLFormatter { entity_substitution := .xml }) i m par n ∧
+    entry BS.Gen.fmtHtmlRegistry BS.Gen.fmtXmlRegistry false (.name none) i m par n = renderMode (mkHTMLFormatter {}) i m par n ∧
+    entry BS.Gen.fmtHtmlRegistry BS.Gen.fmtXmlRegistry true (.name (some N_html)) i m par n
+      = renderMode (mkXMLFormatter { entity_substitution := .html }) i m par n ∧
+    entry BS.Gen.fmtHtmlRegistry BS.Gen.fmtXmlRegistry true (.name (some N_minimal)) i m par n
+      = renderMode (mkXMLFormatter { entity_substitution := .xml }) i m par n ∧
+    entry BS.Gen.fmtHtmlRegistry BS.Gen.fmtXmlRegistry true (.name none) i m par n = renderMode (mkXMLFormatter {}) i m par n ∧
+    (∀ isXml nm, nm ∉ (if isXml then [none, some N_html, some N_minimal]
+                        else [none, some N_html, some N_html5, some N_html5_412, some N_minimal]) →
+      entry BS.Gen.fmtHtmlRegistry BS.Gen.fmtXmlRegistry isXml (.name nm) i m par n = .keyError) := by
+  refine ⟨lookup_html _ _ (by decide) .., lookup_html _ _ (by decide) .., lookup_html _ _ (by decide) ..,
+    lookup_html _ _ (by decide) .., lookup_html _ _ (by decide) .., lookup_xml _ _ (by decide) ..,
+    lookup_xml _ _ (by decide) .., lookup_xml _ _ (by decide) .., ?_⟩
+  intro isXml nm hn
+  have := ((formatter_for_name_spec isXml).2.2.1 nm).2 hn
+  simp [entry, this]
+
+example : entry BS.Gen.fmtHtmlRegistry BS.Gen.fmtXmlRegistry false (.name (some N_html5)) builtin .decode none sample
+    = .ok (ofS "<p a b=\"&\"><br>x&y<script>1&2</script><!--&--></p>") := by decide +kernel
+example : entry BS.Gen.fmtHtmlRegistry BS.Gen.fmtXmlRegistry true (.name (some N_html5)) builtin .decode none sample = .keyError := by
+  decide +kernel
+example : entry BS.Gen.fmtHtmlRegistry BS.Gen.fmtXmlRegistry true (.fn .xml) builtin (.pretty 0) none sample
+    = .ok (ofS "<p a=\"\" b=\"&amp;\">\n <br/>\n x&amp;y\n <script>\n  1&amp;2\n </script>\n <!--&-->\n</p>\n") := by decide +kernel
+
+/-! ## the flavour is that of the element's current position; earlier output calls leave no trace -/
+
+/-- `_is_xml`: the flavour fixed at construction of the nearest element on the way to the root (the element itself
+    included) that has one; if none has, the root's `is_xml` attribute (`False` when the root is not a `BeautifulSoup`). -/
+theorem flavour_rule (chain : List (Option Bool)) (rootAttr : Bool) :
+    isXmlOf chain rootAttr = ((chain.filterMap id).head?).getD rootAttr := isXmlOf_eq chain rootAttr
+
+example : isXmlOf [none, none, some true, some false] false = true ∧ isXmlOf [none, none] true = true ∧
+    isXmlOf [some false, some true] true = false ∧ isXmlOf [none] false = false := by decide
+
+/-- Output calls do not change the documents: after any session the documents are those produced by the edits alone. -/
+theorem output_calls_leave_no_trace (i : Subst → PStr → PStr) (docs : List Doc) (ops : List HOp) :
+    (runSession BS.Gen.fmtHtmlRegistry BS.Gen.fmtXmlRegistry i docs ops).1
+      = (runSession BS.Gen.fmtHtmlRegistry BS.Gen.fmtXmlRegistry i docs (ops.filter HOp.isEdit)).1 :=
+  runSession_docs _ _ i ops docs
+
+/-- Rendering depends only on the current trees and the configuration, not on what was rendered before: an output call
+    at the end of any session returns what the same call returns on the documents produced by the session's edits alone —
+    with the flavour (formatter class and registry for names and bare functions) found from the element's position in
+    those documents. -/
+theorem render_depends_on_current_tree_only (i : Subst → PStr → PStr) (docs : List Doc) (ops : List HOp) (d : Nat)
+    (p : List Nat) (a : FmtArg) (m : Mode) :
+    (runSession BS.Gen.fmtHtmlRegistry BS.Gen.fmtXmlRegistry i docs (ops ++ [.render d p a m])).2.getLast?
+      = some (match ((runSession BS.Gen.fmtHtmlRegistry BS.Gen.fmtXmlRegistry i docs (ops.filter HOp.isEdit)).1)[d]? with
+              | some doc => doc.renderAt BS.Gen.fmtHtmlRegistry BS.Gen.fmtXmlRegistry p a i m
+              | none => .badReceiver) := by
+  rw [runSession_last, runSession_docs]; rfl
+
+/-- a hand-made `<script>` with the text `1&2` (no flavour of its own) -/
+def handScript : XNode := .tag none SCRIPT [] [] false false [.str none .text [49, 38, 50]]
+
+/-- under an HTML soup its text is verbatim with "minimal"; moved under an XML-flavoured root (`Tag("root", is_xml=True)`),
+    and rendered from the script element itself, it is substituted — whatever was rendered while it sat in the HTML tree -/
+example :
+    let html : Doc := ⟨.tag (some false) [100] [] [] false false [handScript], false⟩
+    let xml : Doc := ⟨.tag (some true) [114] [] [] false false [handScript], false⟩
+    let arg := FmtArg.name (some N_minimal)
+    (runSession BS.Gen.fmtHtmlRegistry BS.Gen.fmtXmlRegistry builtin [html]
+        [.render 0 [0] arg .decode, .edit (fun _ => [xml]), .render 0 [0] arg .decode]).2
+      = [.ok (ofS "<script>1&2</script>"), .ok (ofS "<script>1&amp;2</script>")] ∧
+    (runSession BS.Gen.fmtHtmlRegistry BS.Gen.fmtXmlRegistry builtin [html]
+        [.edit (fun _ => [xml]), .render 0 [0] arg .decode]).2 = [.ok (ofS "<script>1&amp;2</script>")] := by decide +kernel
+
 /-! ## determinism -/
 
 /-- Attributes come out in key order whatever the insertion order (keys of a dict are distinct): same output, plain and
@@ -398,5 +516,208 @@ example : reSub BS.Gen.htmlAlts.reverse [60, 233, 38, 8807, 824, 8807, 120] = of
 /-- without the look-ahead the order would matter: a two-alternative table that is not exclusive -/
 example : reSub [⟨[8807], [], [65]⟩, ⟨[8807, 824], [], [66]⟩] [8807, 824] ≠ reSub [⟨[8807, 824], [], [66]⟩, ⟨[8807], [], [65]⟩] [8807, 824] := by
   decide
+
+/-! ## from the parse to the bytes: output is a function of the tree and the configuration
+
+    `RawNode` is what html.parser reports (names, `(key, value)` pairs in source order, strings); `build b` is the element
+    `handle_starttag` + `Tag.__init__` make under the builder configuration `b`. -/
+
+/-- The set- and dict-typed configuration of a builder (`empty_element_tags`, `preserve_whitespace_tags`,
+    `cdata_list_attributes` and the sets in it) is consulted only through membership and key lookup: two configurations that
+    denote the same sets and the same mapping build literally the same tree from every parse. -/
+theorem builder_sets_are_sets (b b' : BuilderCfg) (h : BuilderEquiv b b') (t : RawNode) : build b t = build b' t :=
+  build_equiv b b' h t
+
+/-- In particular any other listing order of those sets and of the dict's entries (what another hash seed, or another way
+    of writing the same literal, gives). -/
+theorem builder_listing_order_irrelevant (b : BuilderCfg) (e' : Option (List PStr)) (p' : List PStr)
+    (c' : List (PStr × List PStr))
+    (he : match b.emptyElementTags, e' with | none, none => True | some s, some s' => s'.Perm s | _, _ => False)
+    (hp : p'.Perm b.preserveWhitespaceTags) (hc : c'.Perm b.cdataListAttributes)
+    (hn : (b.cdataListAttributes.map (·.1)).Nodup) (t : RawNode) :
+    build { b with emptyElementTags := e', preserveWhitespaceTags := p', cdataListAttributes := c' } t = build b t :=
+  build_equiv _ _ (builderEquiv_of_perm b e' p' c' he hp hc hn) t
+
+/-- the HTML builder's configuration as far as the examples need it: void `br`, preserved `pre`, `class` multi-valued -/
+def htmlish : BuilderCfg :=
+  { emptyElementTags := some [[98, 114], [104, 114]], preserveWhitespaceTags := [[112, 114, 101], [116, 101, 120, 116, 97, 114, 101, 97]],
+    cdataListAttributes := [([42], [[99, 108, 97, 115, 115]]), ([116, 100], [[104, 101, 97, 100, 101, 114, 115]])], onDuplicate := .replace }
+
+/-- the same configuration written in another order -/
+def htmlish' : BuilderCfg :=
+  { htmlish with emptyElementTags := some [[104, 114], [98, 114]], preserveWhitespaceTags := htmlish.preserveWhitespaceTags, cdataListAttributes := htmlish.cdataListAttributes.reverse }
+
+example : build htmlish'
+      (.tag [98, 114] [([99, 108, 97, 115, 115], some [97, 32, 32, 98])] [])
+    = build htmlish (.tag [98, 114] [([99, 108, 97, 115, 115], some [97, 32, 32, 98])] []) :=
+  builder_listing_order_irrelevant htmlish _ _ _ (List.Perm.swap _ _ _) (List.Perm.refl _) (List.reverse_perm _) (by decide) _
+
+example : render (mkHTMLFormatter {}) builtin none
+      (build htmlish (.tag [98, 114] [([99, 108, 97, 115, 115], some [97, 32, 32, 98]), ([105, 100], none), ([105, 100], some [120])] []))
+    = ofS "<br class=\"a b\" id=\"x\"/>" := by decide +kernel
+
+/-- A start tag that does not repeat a key: the attribute dict is the source list (a missing value read as `""`), in source
+    order, whatever `on_duplicate_attribute` says. -/
+theorem duplicate_free_start_tag (od : OnDup) (as : List (PStr × Option PStr)) (h : (as.map (·.1)).Nodup) :
+    attrDict od as = as.map (fun e => (e.1, e.2.getD [])) := attrDict_nodup od as h
+
+example : attrDict .replace [([97], some [49]), ([98], none), ([97], some [50])] = [([97], [50]), ([98], [])] ∧
+    attrDict .ignore [([97], some [49]), ([98], none), ([97], some [50])] = [([97], [49]), ([98], [])] := by decide
+
+/-- Attribute order from the source to the output: two parses that differ only in the order in which start tags list their
+    (distinct) attributes — at any depth — give the same output from every output method, under every builder configuration
+    and formatter. (With a repeated key the order is content: it decides which value survives.) -/
+theorem source_attr_order_irrelevant (b : BuilderCfg) (c : Cfg) (i : Subst → PStr → PStr) (m : Mode) (par : Option PStr)
+    (t t' : RawNode) (h : SameUpToAttrOrder t t') :
+    renderMode c i m par (build b t) = renderMode c i m par (build b t') := by
+  rw [← renderMode_canon c i m par (build b t), ← renderMode_canon c i m par (build b t'), canon_build_same b t t' h]
+
+example : SameUpToAttrOrder
+    (.tag [112] [([98], some [49]), ([97], none)] [.tag [105] [([120], none), ([121], none)] [], .str .text [116]])
+    (.tag [112] [([97], none), ([98], some [49])] [.tag [105] [([121], none), ([120], none)] [], .str .text [116]]) :=
+  .tag _ _ _ _ _ (List.Perm.swap _ _ _) (by decide)
+    (.cons _ _ _ _ (.tag _ _ _ _ _ (List.Perm.swap _ _ _) (by decide) .nil) (.cons _ _ _ _ (.str _ _) .nil))
+
+/-- **Output is a function of the tree and the configuration.** For every parse, every output method and every
+    interpretation of the user functions: the listing order of the entity regex's alternatives (`"|".join(set)`), of the
+    formatter's `cdata_containing_tags`, of the builder's sets and dict, and of the attributes within start tags does not
+    reach the output. Everything else the output is computed from is an argument of `renderMode`/`build`. -/
+theorem output_is_function_of_tree_and_configuration
+    (alts' : List Alt) (hp : alts'.Perm BS.Gen.htmlAlts)
+    (b b' : BuilderCfg) (hb : BuilderEquiv b b')
+    (c : Cfg) (cd' : List PStr) (hcd : SetEq cd' c.cdata_containing_tags)
+    (i : Subst → PStr → PStr) (m : Mode) (par : Option PStr) (t t' : RawNode) (ht : SameUpToAttrOrder t t') :
+    renderMode { c with cdata_containing_tags := cd' } (withHtml alts' i) m par (build b t)
+      = renderMode c (withHtml BS.Gen.htmlAlts i) m par (build b' t') := by
+  have hf : FmtEquiv { c with cdata_containing_tags := cd' } (withHtml alts' i) c (withHtml BS.Gen.htmlAlts i) :=
+    { es := rfl, vecp := rfl, eab := rfl, indent := rfl, cdata := hcd,
+      interp := fun x => by
+        unfold withHtml
+        split
+        · exact regex_order_irrelevant alts' hp x
+        · rfl }
+  rw [renderMode_fmtEquiv hf, build_equiv b b' hb t, source_attr_order_irrelevant b' c _ m par t t' ht]
+
+example : renderMode { mkHTMLFormatter { entity_substitution := .html } with cdata_containing_tags := [STYLE, SCRIPT] }
+      (withHtml BS.Gen.htmlAlts.reverse builtin) (.pretty 0) none
+      (build { htmlish with preserveWhitespaceTags := htmlish.preserveWhitespaceTags.reverse }
+        (.tag [112] [([98], some [233]), ([97], none)] [.tag [98, 114] [] [], .str .text [8807, 824]]))
+    = .ok (ofS "<p a=\"\" b=\"&eacute;\">\n <br/>\n &ngeqq;\n</p>\n") := by decide +kernel
+
+/-! ## how the entity regex is assembled (`EntitySubstitution._populate_class_variables`)
+
+    `populateAlts items codepoint2name` mirrors the construction from the two stdlib tables; the sets the code uses
+    (`short_entities`, the values of `long_entities_by_first_character`, `particles`) are kept in one particular order there. -/
+
+/-- **For every input table** in which no long key is a proper prefix of another and none starts with `&`, the
+    alternatives the construction produces are mutually exclusive at every position: distinct keys, and every one-code-point
+    key that starts longer keys carries the look-ahead for each of their second code points. -/
+theorem populate_exclusive (items : List (PStr × PStr)) (c2n : List (Nat × PStr)) (h : TableOK items) :
+    Exclusive (populateAlts items c2n) := populateAlts_exclusive items c2n h
+
+/-- The whole `html.entities.html5` table of the running interpreter satisfies the hypothesis. -/
+theorem html5_table_ok : TableOK BS.Gen.c15Html5Items := tableOKChk_sound _ (by decide +kernel)
+
+/-- Hence, for every such table, `substitute_html` does not depend on the order in which the sets were iterated: any
+    relisting of the code points inside the look-ahead classes (`f`) followed by any relisting of the alternatives gives
+    the same function. -/
+theorem populate_order_irrelevant (items : List (PStr × PStr)) (c2n : List (Nat × PStr)) (h : TableOK items)
+    (f : Alt → Alt) (hk : ∀ a, (f a).key = a.key) (hr : ∀ a, (f a).repl = a.repl)
+    (hn : ∀ a x, x ∈ (f a).notNext ↔ x ∈ a.notNext)
+    (alts' : List Alt) (hp : alts'.Perm ((populateAlts items c2n).map f)) (s : PStr) :
+    reSub alts' s = reSub (populateAlts items c2n) s := by
+  rw [reSub_perm _ alts' (exclusive_map _ f hk hn (populate_exclusive items c2n h)) hp s,
+    reSub_map_congr _ f hk hr hn s]
+
+/-- for the live tables -/
+theorem populate_order_irrelevant_live (f : Alt → Alt) (hk : ∀ a, (f a).key = a.key) (hr : ∀ a, (f a).repl = a.repl)
+    (hn : ∀ a x, x ∈ (f a).notNext ↔ x ∈ a.notNext)
+    (alts' : List Alt) (hp : alts'.Perm ((populateAlts BS.Gen.c15Html5Items BS.Gen.c15Codepoint2name).map f)) (s : PStr) :
+    reSub alts' s = reSub (populateAlts BS.Gen.c15Html5Items BS.Gen.c15Codepoint2name) s :=
+  populate_order_irrelevant _ _ html5_table_ok f hk hr hn alts' hp s
+
+/-- a five-entry table: `≧` starts `≧̸`, so it gets the look-ahead; `lt` keeps its name; `&` is always there -/
+def tinyTable : List (PStr × PStr) :=
+  [([71, 69, 59], [8807]), ([97, 109, 112, 59], [38]), ([101, 97, 99, 117, 116, 101, 59], [233]), ([108, 116, 59], [60]),
+   ([110, 103, 69, 59], [8807, 824])]
+
+example : populateAlts tinyTable [] =
+    [⟨[8807], [824], ofS "&GE;"⟩, ⟨[233], [], ofS "&eacute;"⟩, ⟨[60], [], ofS "&lt;"⟩, ⟨[8807, 824], [], ofS "&ngE;"⟩,
+     ⟨[38], [], ofS "&amp;"⟩] := by decide +kernel
+example : TableOK tinyTable := tableOKChk_sound _ (by decide)
+example : reSub (populateAlts tinyTable []).reverse [8807, 824, 8807, 38] = ofS "&ngE;&GE;&amp;" := by decide +kernel
+/-- the hypothesis is needed: with a long key that is a proper prefix of another the construction has no look-ahead for it -/
+example : ¬ TableOK [([97, 59], [8807, 824]), ([98, 59], [8807, 824, 824])] := by
+  intro h; have := h.1 [8807, 824] (by decide) [8807, 824, 824] (by decide) (by decide); exact absurd this (by decide)
+
+/-! ## `Formatter` subclasses that override `attributes()` -/
+
+/-- The base class is the instance "sort, with `empty_attributes_are_booleans` applied" of the hook. -/
+theorem attributes_hook_default (c : Cfg) (i : Subst → PStr → PStr) (par : Option PStr) (n : Node) :
+    renderHook (attributes c) c i par n = render c i par n := renderHook_default c i par n
+
+/-- Whatever `attributes()` a subclass defines, the output depends on a tag's attribute dict only through what that
+    method returns for it: trees whose attribute lists the hook cannot tell apart render the same. -/
+theorem attributes_hook_decides (h : AttrHook) (c : Cfg) (i : Subst → PStr → PStr) (par : Option PStr) (t t' : Node)
+    (hs : SameUpToHook h t t') : renderHook h c i par t = renderHook h c i par t' := renderHook_congr h c i par t t' hs
+
+/-- So a subclass keeps the "whatever the insertion order" guarantee exactly when its `attributes()` does not look at the
+    order; the base implementation is one such (it sorts), … -/
+theorem base_attributes_ignore_insertion_order (c : Cfg) (as₁ as₂ : List (PStr × AttrVal)) (hp : as₁.Perm as₂)
+    (hd : (as₁.map (·.1)).Nodup) : attributes c as₁ = attributes c as₂ := attributes_perm c as₁ as₂ hp hd
+
+/-- … the documentation's `UnsortedAttributes` (yield the items as they come) is not, and neither
+    `empty_attributes_are_booleans` nor sorting is applied for it. -/
+example :
+    renderHook id (mkHTMLFormatter { empty_attributes_are_booleans := true }) builtin none (.tag [112] [] [([98], .str [49]), ([97], .str [])] false false [])
+      = ofS "<p b=\"1\" a=\"\"></p>" ∧
+    renderHook id (mkHTMLFormatter { empty_attributes_are_booleans := true }) builtin none (.tag [112] [] [([97], .str []), ([98], .str [49])] false false [])
+      = ofS "<p a=\"\" b=\"1\"></p>" ∧
+    render (mkHTMLFormatter { empty_attributes_are_booleans := true }) builtin none (.tag [112] [] [([98], .str [49]), ([97], .str [])] false false [])
+      = ofS "<p a b=\"1\"></p>" := by decide +kernel
+
+example : SameUpToHook (attributes (mkHTMLFormatter {}))
+    (.tag [112] [] [([98], .str [49]), ([97], .none)] false false []) (.tag [112] [] [([97], .none), ([98], .str [49])] false false []) :=
+  .tag _ _ _ _ _ _ _ _ (by decide) .nil
+
+/-! ## the hypotheses of the theorems above are satisfiable (instantiations on concrete, non-trivial data) -/
+
+def attrsBA : List (PStr × AttrVal) := [([98], .str [49]), ([97], .none), ([99], .list [[120], [121]])]
+def attrsAB : List (PStr × AttrVal) := [([97], .none), ([98], .str [49]), ([99], .list [[120], [121]])]
+
+example := attrs_sorted (mkHTMLFormatter {}) builtin none [112] [] attrsBA attrsAB false false [] (List.Perm.swap _ _ _) (by decide)
+example := canon_perm [112] [] attrsBA attrsAB false false [sample] (List.Perm.swap _ _ _) (by decide)
+example := attrs_sorted_deep (mkXMLFormatter {}) builtin none _ _ (canon_perm [112] [] attrsBA attrsAB false false [sample] (List.Perm.swap _ _ _) (by decide))
+example := base_attributes_ignore_insertion_order (mkHTMLFormatter {}) attrsBA attrsAB (List.Perm.swap _ _ _) (by decide)
+example := regex_order_irrelevant BS.Gen.htmlAlts.reverse (List.reverse_perm _) [8807, 824]
+example := hash_seed_independent BS.Gen.htmlAlts.reverse (List.reverse_perm _) (mkHTMLFormatter { entity_substitution := .html })
+  [STYLE, SCRIPT] (List.Perm.swap _ _ _) builtin none [112] [] attrsBA attrsAB false false [sample] (List.Perm.swap _ _ _) (by decide)
+example := custom_subst_scope (mkXMLFormatter { entity_substitution := .custom 3 }) bracket (by decide) none sample
+example := custom_subst_scope_pretty (mkXMLFormatter { entity_substitution := .custom 3 }) bracket (by decide) 2 none sample
+example := lookup_html (some N_minimal) _ (by decide : lookup BS.Gen.fmtHtmlRegistry (some N_minimal) = .ok (mkHTMLFormatter { entity_substitution := .xml })) builtin .decode none sample
+example := lookup_xml none _ (by decide : lookup BS.Gen.fmtXmlRegistry none = .ok (mkXMLFormatter {})) builtin (.pretty 1) none sample
+example := duplicate_free_start_tag .ignore [([98], some [49]), ([97], none)] (by decide)
+
+/-- `htmlish'` lists the same sets and the same dict in another order -/
+theorem htmlish_equiv : BuilderEquiv htmlish' htmlish :=
+  builderEquiv_of_perm htmlish _ _ _ (List.Perm.swap _ _ _) (List.Perm.refl _) (List.reverse_perm _) (by decide)
+
+def rawBA : RawNode := .tag [112] [([98], some [49]), ([97], none)] [.tag [98, 114] [([99, 108, 97, 115, 115], some [120, 32, 121])] [], .str .text [8807, 824]]
+def rawAB : RawNode := .tag [112] [([97], none), ([98], some [49])] [.tag [98, 114] [([99, 108, 97, 115, 115], some [120, 32, 121])] [], .str .text [8807, 824]]
+
+/-- two parses of `<p …><br class="x y">≧̸</p>` that list the attributes of `p` in different orders -/
+theorem rawBA_AB : SameUpToAttrOrder rawBA rawAB :=
+  .tag _ _ _ _ _ (List.Perm.swap _ _ _) (by decide)
+    (.cons _ _ _ _ (.tag _ _ _ _ _ (List.Perm.refl _) (by decide) .nil) (.cons _ _ _ _ (.str _ _) .nil))
+
+example := builder_sets_are_sets htmlish' htmlish htmlish_equiv rawBA
+example := source_attr_order_irrelevant htmlish (mkHTMLFormatter { entity_substitution := .html }) builtin (.pretty 0) none rawBA rawAB rawBA_AB
+example := output_is_function_of_tree_and_configuration BS.Gen.htmlAlts.reverse (List.reverse_perm _) htmlish' htmlish htmlish_equiv
+  (mkHTMLFormatter { entity_substitution := .html }) [STYLE, SCRIPT] (SetEq.of_perm (List.Perm.swap _ _ _)) builtin (.pretty 0) none rawBA rawAB rawBA_AB
+
+/-- relisting the look-ahead classes (here: reversed) and the alternatives (here: reversed) of the live construction -/
+example := populate_order_irrelevant_live (fun a => { a with notNext := a.notNext.reverse }) (fun _ => rfl) (fun _ => rfl)
+  (fun _ _ => List.mem_reverse) _ (List.reverse_perm _) [8810, 824, 8810, 8402]
+example := populate_exclusive tinyTable [] (tableOKChk_sound _ (by decide))
 
 end BS.Props.C15
